@@ -1603,24 +1603,42 @@ func (c *Ctx) c16SideFileRefreshed() {
 // and the context cancelled leaves a lock that is held and silent — after two periods every other client sees it stale,
 // CleanEntry releases it and a second Store runs in the middle of the first.
 func (c *Ctx) c16HeartBeatOutlivesTheAcquire() {
-	c.rule("Y19", "a function of package sharedcache that acquires an entry lock under a context it derived itself (context.With*) and cancels in that function also releases the lock in that function: the heartbeat of a lock that stays held is never stopped by its own client", 1)
+	c.heartBeatOutlivesTheAcquire("Y19", scPkg, "a function of package sharedcache that acquires an entry lock under a context it derived itself (context.With*) and cancels in that function also releases the lock in that function: the heartbeat of a lock that stays held is never stopped by its own client", 1)
+}
+
+// heartBeatOutlivesTheAcquire is the rule Y19 for the functions of package rel, reported as `rule` (C01/R16 evaluates it for
+// the lock's own implementation, whose take-over path acquires by calling TryLock again).
+func (c *Ctx) heartBeatOutlivesTheAcquire(rule, rel, text string, floor int) {
+	c.rule(rule, text, floor)
 	n := 0
-	for _, f := range c.srcFuncs(scPkg) {
+	for _, f := range c.srcFuncs(rel) {
 		if f.Parent() != nil || f.Blocks == nil {
 			continue
 		}
 		withAnon(f, func(h *ssa.Function) {
 			allInstrs(h, func(in ssa.Instruction) {
 				cl, ok := in.(*ssa.Call)
-				if !ok || !cl.Call.IsInvoke() || !lockAcquire[cl.Call.Method.Name()] || !isILockRecv(cl.Call.Value) || len(cl.Call.Args) == 0 {
+				if !ok {
 					return
+				}
+				var recv, ctxArg ssa.Value
+				name := ""
+				switch {
+				case cl.Call.IsInvoke() && lockAcquire[cl.Call.Method.Name()] && isILockRecv(cl.Call.Value) && len(cl.Call.Args) > 0:
+					recv, ctxArg, name = cl.Call.Value, cl.Call.Args[0], cl.Call.Method.Name()
+				default:
+					g := staticCallee(&cl.Call)
+					if g == nil || g.Signature.Recv() == nil || !lockAcquire[g.Name()] || len(cl.Call.Args) < 2 || !isILockRecv(cl.Call.Args[0]) {
+						return
+					}
+					recv, ctxArg, name = cl.Call.Args[0], cl.Call.Args[1], g.Name()
 				}
 				n++
 				c.FuncsSeen[fname(f)] = true
-				key := fname(f) + "/acquire-context:" + cl.Call.Method.Name()
-				root := lockRoot(cl.Call.Value)
+				key := fname(f) + "/acquire-context:" + name
+				root := lockRoot(recv)
 				cancelledHere := ""
-				for _, l := range sources(cl.Call.Args[0], deriveOpts{}) {
+				for _, l := range sources(ctxArg, deriveOpts{}) {
 					ex, ok := l.(*ssa.Extract)
 					if !ok || ex.Index != 0 {
 						continue
@@ -1650,7 +1668,7 @@ func (c *Ctx) c16HeartBeatOutlivesTheAcquire() {
 					}
 				}
 				if cancelledHere == "" {
-					c.ok("Y19", key, c.ipos(cl), "the lock is acquired under the caller's context (or one this function does not cancel)")
+					c.ok(rule, key, c.ipos(cl), "the lock is acquired under the caller's context (or one this function does not cancel)")
 					return
 				}
 				released := false
@@ -1664,7 +1682,7 @@ func (c *Ctx) c16HeartBeatOutlivesTheAcquire() {
 						}
 					})
 				})
-				c.check(released, "Y19", key, c.ipos(cl), "the function that cancels the context of the acquire also releases the lock",
+				c.check(released, rule, key, c.ipos(cl), "the function that cancels the context of the acquire also releases the lock",
 					"the lock is acquired under a context this function derives and cancels ("+cancelledHere+") without releasing the lock: the heartbeat lives on that context (it is what tells the other clients that the holder is alive), so the lock its caller goes on holding falls silent — two heartbeat periods later CleanEntry of another client finds it stale and releases it, a second Store runs in the middle of the first, and the Store that reported success has its package removed by the failure path of the other")
 			})
 		})
